@@ -254,8 +254,88 @@ func raceCancelScenario(a, b string, gated bool) func() {
 	}
 }
 
+// stalledScenario: node 2's sender is stalled (its server does not read: one message in a never-releasing
+// handler, one filling the window, one stuck in the write), so the request of call A to node 2 waits in the
+// send buffer while A completes on node 1's answer. The same goroutine then issues call B, which needs both
+// nodes; finally the server reads again. Whatever A left behind (a queued request, a router, pooled per-call
+// state) must not leak into B: every reply carries its observer's own token.
+func stalledScenario(a, b string, buf uint) func() {
+	return func() {
+		w := world.New(world.Opts{N: 2, Window: 1, SendBuffer: buf})
+		if w.Cfg == nil {
+			return
+		}
+		blockers := map[int]bool{}
+		w.Handle = func(h *world.HCtx) world.Reply {
+			if blockers[h.Tok] {
+				w.Wait("unstall")
+				return world.Reply{}
+			}
+			if h.Send != nil {
+				h.Send(0, 0)
+			}
+			return world.Reply{}
+		}
+		for i := 0; i < 3; i++ {
+			x := w.NewCall("Unicast")
+			x.Node, x.NoSendWaiting = 2, true
+			x.Ctx = context.Background()
+			blockers[x.Tok] = true
+			w.Invoke(x)
+			mc.Quiesce()
+		}
+		mk := func(kind string, thr int) *world.Call {
+			c := w.NewCall(kind)
+			if kind == "GRPCCall" || strings.HasPrefix(kind, "Unicast") {
+				c.Node = 2
+			}
+			c.Ctx = context.Background()
+			c.Verdict = func(inv *world.QFInv) { inv.Level = len(inv.Keys); inv.Quorum = len(inv.Keys) >= thr }
+			return c
+		}
+		ca, cb := mk(a, 1), mk(b, 2)
+		mc.GoNamed("client", func() {
+			w.Invoke(ca)
+			w.Invoke(cb)
+		})
+		mc.Quiesce()
+		w.Open("unstall")
+		mc.Quiesce()
+		name := fmt.Sprintf("stalled-sender/%s;%s/buf=%d", a, b, buf)
+		for _, c := range []*world.Call{ca, cb} {
+			checkGenuine(w, c, name)
+			for _, n := range c.Targets() {
+				if cnt := w.Entered(n, c.Tok); cnt > 1 {
+					fail("C03/handler-twice", classOf(c.Kind), "%s: node %d handled call t%d %d times", name, n, c.Tok, cnt)
+				}
+			}
+			// the handler sees the payload of the request that carries the call's message id
+			for _, e := range w.EventsOf("enter", 0) {
+				if e.Tok == c.Tok && !strings.HasPrefix(e.Payload, c.Req.Value) {
+					fail("C05/foreign-request", classOf(c.Kind), "%s: node %d handled %q for call t%d", name, e.Node, e.Payload, c.Tok)
+				}
+			}
+			if done, _ := callDone(c); !done {
+				fail("C05/call-stuck", classOf(c.Kind), "%s: call t%d (%s) has not completed although every node has answered", name, c.Tok, c.Kind)
+			}
+		}
+		mc.Outcome("a-node2=%d b-node2=%d", w.Entered(2, ca.Tok), w.Entered(2, cb.Tok))
+	}
+}
+
 func xtalkInstances(tier string) []Instance {
 	var out []Instance
+	for _, a := range []string{"QuorumCall", "QuorumCallAsync", "Correctable", "Multicast", "QuorumCallCombo"} {
+		for _, b := range []string{"QuorumCall", "QuorumCallAsync", "Correctable", "GRPCCall"} {
+			for _, buf := range []uint{1, 2} {
+				bound := 1
+				if thorough(tier) {
+					bound = 2
+				}
+				out = append(out, Instance{Name: fmt.Sprintf("stalled-sender/%s;%s/buf=%d", a, b, buf), Bound: bound, Root: stalledScenario(a, b, buf)})
+			}
+		}
+	}
 	for _, a := range []string{"GRPCCall", "QuorumCall", "QuorumCallAsync", "Correctable", "CorrectableStream", "Unicast", "Multicast"} {
 		for _, b := range []string{"GRPCCall", "QuorumCall"} {
 			for _, gated := range []bool{false, true} {
@@ -333,7 +413,7 @@ func xtalkInstances(tier string) []Instance {
 
 func init() {
 	register(&Check{ID: "C05",
-		Rule:        "two (three in thorough) concurrent client threads on one manager with 3 nodes: every ordered pair over {quorum call, async, correctable, correctable stream, RPC, multicast} on equal or overlapping configurations ({1,2} vs {1,2} / {2,3}), with and without a cancel event for the first call, plus back-to-back calls of one thread concurrent with another thread (thresholds 1 and 2); every handler releases early and is gated individually, and the script opens the gates and fires the cancel in every order at quiescent points (so replies arrive after their call returned or was cancelled); all schedules within the deviation bound; plus the queued-request fault family of C07 (error delivered at most once per node); oracle: every reply shown to a quorum function or returned carries the observer's own call token and the node id it is filed under, at most one reply per node and call, nothing observed after return, one message id per call; an outcome is (instance, event order)",
+		Rule:        "two (three in thorough) concurrent client threads on one manager with 3 nodes: every ordered pair over {quorum call, async, correctable, correctable stream, RPC, multicast} on equal or overlapping configurations ({1,2} vs {1,2} / {2,3}), with and without a cancel event for the first call, plus back-to-back calls of one thread concurrent with another thread (thresholds 1 and 2); every handler releases early and is gated individually, and the script opens the gates and fires the cancel in every order at quiescent points (so replies arrive after their call returned or was cancelled); all schedules within the deviation bound; plus the queued-request fault family of C07 (error delivered at most once per node); plus a stalled-sender family (call A completes on node 1 while its request to node 2 waits in the send buffer behind a stalled sender, the same goroutine then issues call B needing both nodes, then the server reads again; send buffer {1,2}); oracle: every reply shown to a quorum function or returned carries the observer's own call token and the node id it is filed under, at most one reply per node and call, nothing observed after return, one message id per call; an outcome is (instance, event order)",
 		Gen:         xtalkInstances,
 		Assumptions: []string{"puppet servers stamp every reply with (call token, node, sequence); transport is the fakegrpc model"},
 	})
